@@ -307,7 +307,8 @@ where
 
 #[derive(Debug)]
 struct BRemapperClass<'a> {
-	name: &'a ObjClassName,
+	/// The name in the target namespace, `None` if the class itself has no name there (its members can still have).
+	name: Option<&'a ObjClassName>,
 	fields: IndexMap<TupleKey<&'a FieldNameSlice, FieldDescriptor>, TupleKey<&'a FieldNameSlice, FieldDescriptor>>,
 	methods: IndexMap<TupleKey<&'a MethodNameSlice, MethodDescriptor>, TupleKey<&'a MethodNameSlice, MethodDescriptor>>,
 }
@@ -322,7 +323,7 @@ impl<const N: usize, I> ARemapper for BRemapperImpl<'_, '_, N, I> {
 	fn map_class_fail(&self, class: &ObjClassNameSlice) -> Result<Option<ObjClassName>> {
 		match self.classes.get(class) {
 			None => Ok(None),
-			Some(class) => Ok(Some(class.name.clone())),
+			Some(class) => Ok(class.name.cloned()),
 		}
 	}
 }
@@ -382,7 +383,8 @@ impl<const N: usize, Ns> Mappings<N, Ns> {
 
 		let mut classes = IndexMap::new();
 		for class in self.classes.values() {
-			if let (Some(name_from), Some(name_to)) = (&class.info.names[from], &class.info.names[to]) {
+			if let Some(name_from) = &class.info.names[from] {
+				let name_to = class.info.names[to].as_ref();
 				let mut fields = IndexMap::new();
 				for field in class.fields.values() {
 					if let (Some(name_from), Some(name_to)) = (&field.info.names[from], &field.info.names[to]) {
